@@ -333,6 +333,9 @@ def desugar_options_once(body):
         last = nm.rsplit('::', 1)[-1]
         if 'option::Option::<T>::' in nm and last in OPTION_COMBINATORS and t.get('target') is not None:
             sites.append((bi, last))
+        elif 'option::Option::<T>::' in nm and last in ('is_some', 'is_none') and t.get('target') is not None and \
+                t['args'] and 'l' in t['args'][0] and str(t['args'][0].get('ty', '')).startswith('&'):
+            sites.append((bi, last))
         elif nm.endswith(('<impl bool>::then', '<impl bool>::then_some')) and t.get('target') is not None:
             sites.append((bi, last))
     if not sites:
@@ -359,6 +362,18 @@ def desugar_options_once(body):
             l = w.local(args[i].get('ty', '?'))
             pre.append(_assign(_pl(l, args[i].get('ty', '?')), {'r': 'use', 'a': copy.deepcopy(args[i])}, span))
             return l
+        if kind in ('is_some', 'is_none'):
+            # `o.is_some()` is `match *o { Some(_) => true, None => false }`
+            r_l = keep(0)
+            d_l = w.local('isize')
+            pre.append(_assign(_pl(d_l, 'isize'), {'r': 'discr', 'place': _pl(r_l, '?', ['deref'])}, span))
+            tb = w.block([_assign(copy.deepcopy(dest), {'r': 'use', 'a': {'k': 'const', 'ty': 'bool', 'bool': kind == 'is_some'}}, span)],
+                         {'t': 'goto', 'target': target, 'span': span})
+            fb = w.block([_assign(copy.deepcopy(dest), {'r': 'use', 'a': {'k': 'const', 'ty': 'bool', 'bool': kind != 'is_some'}}, span)],
+                         {'t': 'goto', 'target': target, 'span': span})
+            w.blocks[bi]['term'] = {'t': 'switch', 'discr': _op(d_l, 'isize', k='copy'), 'arms': [['0', fb]], 'otherwise': tb, 'span': span,
+                                    'syn_option': kind}
+            continue
         if kind in ('then', 'then_some'):
             c_l = keep(0)
             v_l = keep(1)
